@@ -16,6 +16,9 @@ class _NoModular(DriverPolicy):
     def on_call(self, interp, fn, args, kwargs):
         return NotImplemented
 
+    def on_loop(self, interp, node, frame):
+        return None
+
 
 def crosscheck_contract(c, n=40, seed=0):
     """returns (runs, disagreements[list of text], skipped reason or None)"""
@@ -24,6 +27,10 @@ def crosscheck_contract(c, n=40, seed=0):
     runs, bad = 0, []
     if c.entry is not None and c.native_entry is None:
         return 0, [], "custom entry"
+    if c.loops or getattr(c, "no_crosscheck", False):
+        # contracts that cut loops havoc program variables with abstract
+        # values: their generators are not meant to be run concretely
+        return 0, [], "loop-cut contract"
     for k in range(n):
         st = rng.getstate()
         outs = []
